@@ -220,6 +220,7 @@ let parse_op (a : string list) : op option =
   | ["to_nexus"] -> Some OToNexus
   | "layout" :: _ -> Some OLayout
   | ["rt_newick"] -> Some ORtNewick
+  | ["rt_fmt"; k] -> Some (ORtFmt (fmt_of_nat (nat k)))
   | ["tril"; n; i; j] -> Some (OTril (nat n, nat i, nat j))
   | ["rowvec"; n; k] -> Some (ORowvec (nat n, nat k))
   | op :: args ->
